@@ -1,5 +1,4 @@
 use serde::{Deserialize, Serialize};
-use std::collections::HashSet;
 
 /// Index of the NIL tuple type (always at index 0)
 pub const NIL: usize = 0;
@@ -202,7 +201,7 @@ enum UnionMode {
 ///
 /// This is used for type checking (can I assign this value to this variable?).
 pub fn is_compatible<T: TypeLookup>(self_id: usize, pattern_id: usize, lookup: &T) -> bool {
-    let mut assumptions = HashSet::new();
+    let mut assumptions = Vec::new();
     let mut type_stack = Vec::new();
     check_type_relation(
         self_id,
@@ -221,7 +220,7 @@ pub fn is_compatible<T: TypeLookup>(self_id: usize, pattern_id: usize, lookup: &
 ///
 /// This is used for pattern matching (could this value possibly match this pattern?).
 pub fn types_overlap<T: TypeLookup>(self_id: usize, pattern_id: usize, lookup: &T) -> bool {
-    let mut assumptions = HashSet::new();
+    let mut assumptions = Vec::new();
     let mut type_stack = Vec::new();
     check_type_relation(
         self_id,
@@ -247,7 +246,7 @@ fn check_type_relation<T: TypeLookup>(
     pattern_id: usize,
     lookup: &T,
     mode: UnionMode,
-    assumptions: &mut HashSet<(usize, usize)>,
+    assumptions: &mut Vec<(usize, usize)>,
     type_stack: &mut Vec<usize>,
 ) -> bool {
     // Fast path: same ID always satisfies the relation
@@ -318,10 +317,13 @@ fn check_type_relation<T: TypeLookup>(
 
         // Union on left side: mode determines ALL vs ANY semantics
         (Type::Union(variants), _) => {
-            // Insert assumption for recursive types
-            assumptions.insert(key);
+            // Insert assumption for recursive types. The hypothesis (and everything derived
+            // under it) only stands if this check succeeds: on failure, retract back to `mark`
+            // so a sibling branch of an enclosing `any` cannot succeed on a refuted assumption.
+            let mark = assumptions.len();
+            assumptions.push(key);
 
-            match mode {
+            let result = match mode {
                 UnionMode::All => variants.iter().all(|&variant_id| {
                     check_type_relation(
                         variant_id,
@@ -342,7 +344,11 @@ fn check_type_relation<T: TypeLookup>(
                         type_stack,
                     )
                 }),
+            };
+            if !result {
+                assumptions.truncate(mark);
             }
+            result
         }
 
         // Union on right side: self must match ANY variant (same for both modes)
@@ -350,8 +356,9 @@ fn check_type_relation<T: TypeLookup>(
             // Record the coinductive hypothesis (as the union-on-left arm does) so a back-edge
             // that returns to this same pair — e.g. a recursive type reached through a
             // union-on-right then a cycle — terminates at the assumption check above instead of
-            // recursing without bound.
-            assumptions.insert(key);
+            // recursing without bound. Retracted again below if the check fails.
+            let mark = assumptions.len();
+            assumptions.push(key);
 
             let already_on_stack = type_stack.contains(&pattern_id);
             if !already_on_stack {
@@ -362,6 +369,9 @@ fn check_type_relation<T: TypeLookup>(
             });
             if !already_on_stack {
                 type_stack.pop();
+            }
+            if !result {
+                assumptions.truncate(mark);
             }
             result
         }
